@@ -53,10 +53,14 @@ def _exec_one(mod, seed, tier, twice=False):
 
 
 def _worker_chunk(args):
-    prop, tier, base, idxs, twice_upto, per_run_timeout = args
+    prop, tier, base, idxs, twice_upto, per_run_timeout, marker_dir = args
     mod = _MOD or _load(prop)
     outs = []
+    marker = os.path.join(marker_dir, f"w{os.getpid()}") if marker_dir else None
     for i in idxs:
+        if marker:
+            with open(marker, "w") as fh:
+                fh.write(str(i))
         faulthandler.dump_traceback_later(per_run_timeout, exit=True)
         try:
             seed = run_seed(base, prop, i)
@@ -69,6 +73,9 @@ def _worker_chunk(args):
             outs.append(o)
         finally:
             faulthandler.cancel_dump_traceback_later()
+    if marker:
+        with open(marker, "w") as fh:
+            fh.write("")
     return outs
 
 
@@ -218,26 +225,73 @@ def main(argv=None):
     sys.stdout.flush()
 
     chunk = max(1, min(64, n_runs // (a.workers * 8) or 1))
-    idx_chunks = [list(range(s, min(s + chunk, n_runs))) for s in range(0, n_runs, chunk)]
     per_run_timeout = getattr(mod, "RUN_TIMEOUT_S", 300)
     results = {}
     harness_errors = []
     skipped = 0
+    aborted = []
     t_batch = time.time()
     ctx = mp.get_context("fork")
+    import shutil
+    import tempfile
+
+    marker_dir = tempfile.mkdtemp(prefix="pdsim_markers_")
     try:
-        with ProcessPoolExecutor(max_workers=a.workers, mp_context=ctx) as ex:
-            futs = {ex.submit(_worker_chunk, (prop, tier, base, c, n_self, per_run_timeout)): c
-                    for c in idx_chunks}
-            for fut in as_completed(futs):
-                for o in fut.result():
-                    results[o["i"]] = o
-                if time.time() - t_batch > cap_s:
-                    for f2 in futs:
-                        if not f2.done() and f2.cancel():
-                            skipped += len(futs[f2])
-    except BrokenProcessPool as e:
-        harness_errors.append(f"worker died: {e}")
+        pending = list(range(n_runs))
+        suspects = []
+        breaks = 0
+        while pending and breaks <= 20:
+            idx_chunks = [pending[s:s + chunk] for s in range(0, len(pending), chunk)]
+            broke = False
+            try:
+                with ProcessPoolExecutor(max_workers=a.workers, mp_context=ctx) as ex:
+                    futs = {ex.submit(_worker_chunk, (prop, tier, base, c, n_self, per_run_timeout,
+                                                      marker_dir)): c for c in idx_chunks}
+                    for fut in as_completed(futs):
+                        for o in fut.result():
+                            results[o["i"]] = o
+                        if time.time() - t_batch > cap_s:
+                            for f2 in futs:
+                                if not f2.done() and f2.cancel():
+                                    skipped += len(futs[f2])
+            except BrokenProcessPool:
+                broke = True
+                breaks += 1
+            in_flight = set()
+            for fn in os.listdir(marker_dir):
+                try:
+                    with open(os.path.join(marker_dir, fn)) as fh:
+                        v = fh.read().strip()
+                    if v:
+                        in_flight.add(int(v))
+                    os.remove(os.path.join(marker_dir, fn))
+                except (OSError, ValueError):
+                    pass
+            if not broke:
+                break
+            in_flight -= set(results)
+            suspects.extend(sorted(in_flight))
+            pending = [i for i in pending if i not in results and i not in in_flight]
+            if time.time() - t_batch > cap_s:
+                skipped += len(pending)
+                pending = []
+        # runs that were in flight when a worker died: one at a time, each in its own process
+        for i in suspects:
+            try:
+                with ProcessPoolExecutor(max_workers=1, mp_context=ctx) as ex:
+                    for o in ex.submit(_worker_chunk, (prop, tier, base, [i], n_self, per_run_timeout,
+                                                       marker_dir)).result():
+                        results[o["i"]] = o
+            except BrokenProcessPool:
+                aborted.append(i)
+        if breaks > 20:
+            harness_errors.append("worker pool broke more than 20 times")
+    finally:
+        shutil.rmtree(marker_dir, ignore_errors=True)
+    for i in aborted:
+        harness_errors.append(
+            f"run {i} seed {run_seed(base, prop, i)} killed its interpreter (fatal error or "
+            f"{per_run_timeout}s watchdog) -- reproduced in a process of its own; not judged")
     batch_s = time.time() - t_batch
 
     # ---- aggregate (by run index, never by completion order)
@@ -359,6 +413,7 @@ def main(argv=None):
                            "update_calls": counters.get("update_calls", 0)},
         "runs_per_hour": rate,
         "runs_skipped_by_wall_cap": skipped,
+        "runs_that_killed_their_interpreter": len(aborted),
         "determinism_selftest": selftest,
         "components": getattr(mod, "COMPONENTS", {}),
         "uncontrolled_supplement": supplement,
